@@ -750,6 +750,7 @@ package loadbalancer
 //@   ensures added_is_listed_and_eligible: result == nil ==> exists b *Backend :: inPool(lb, b) && fresh(b) && b.Name == backendCfg.Name && b.IsHealthy
 //@             && b.Weight == max(1, backendCfg.Weight) && b.ActiveConnections == 0 && b.ReverseProxy != nil
 //@             && b.ReverseProxy.Director == stockDirector(ptr(b.ReverseProxy)) && b.ReverseProxy.Rewrite == nil && b.ReverseProxy.ModifyResponse == nil && b.ReverseProxy.ErrorHandler == nil
+//@             && b.ReverseProxy.FlushInterval < 0 && b.URL != nil && (b.URL.Scheme == "http" || b.URL.Scheme == "https") && b.URL.Host != ""
 //@   ensures existing_are_kept: forall b *Backend :: old(inPool(lb, b)) ==> inPool(lb, b)
 //@   ensures only_the_new_one_is_new: forall b *Backend :: inPool(lb, b) && !fresh(b) ==> old(inPool(lb, b))
 //@   ensures failed_add_changes_nothing: result != nil ==> forall b *Backend :: inPool(lb, b) <==> old(inPool(lb, b))
@@ -952,8 +953,15 @@ package loadbalancer
 //@   props C18
 //@   requires lb != nil && cfg != nil && cfgBreakerInRange(cfg)
 //@   modifies lb.circuitBreaker
+// C04: "a failed active probe ejects it ... for the configured unhealthy window": whenever a kind of health
+// checking is enabled the window must have a positive length (the README's active-only example omits the
+// passive section, where the window is configured; the documentation says 30 seconds).
 //@ func createHealthChecker
+//@   props C04 C02
 //@   inline
+//@   requires cfg != nil && 0 <= cfg.HealthChecks.Passive.UnhealthyTimeout && cfg.HealthChecks.Passive.UnhealthyTimeout < 8589934592
+//@   ensures result != nil
+//@   ensures an_ejection_has_a_positive_window: cfg.HealthChecks.Active.Enabled || cfg.HealthChecks.Passive.Enabled ==> result.passiveTimeout > 0
 //@ func (*LoadBalancer).startHealthChecks
 //@   inline
 
